@@ -1,6 +1,7 @@
 SPECIFICATION Spec
 CONSTANT UseMutex = TRUE
 CONSTANT SharedScratch = FALSE
+CONSTANT AtomicAdd = TRUE
 CONSTANT TryLock = TRUE
 INVARIANT ParEqualsSeq
 INVARIANT NoLostStrategyUpdate
